@@ -62,7 +62,9 @@ def gen(r, S=None, saa=False):
     return d
 
 
-def build(d):
+def build(d, presolve=None):
+    """presolve: a callable m -> None run after the objective is declared and BEFORE the adaptation of y is
+    (a different build history of the same model, used by C09)"""
     S, nz, nd = d['S'], d['nz'], d['nd']
     scen = d['labels'] or d['int_labels'] or S
     m = dro.Model(scen)
@@ -72,10 +74,14 @@ def build(d):
     else:
         x = m.dvar(nd); y = m.dvar()
     z = m.rvar(nz)
-    for e in d['y_events']:
-        y.adapt([lab(s) for s in e] if len(e) > 1 else lab(e[0]))
-    if d['y_affine']:
-        y.adapt(z)
+
+    def declare_adaptation():
+        for e in d['y_events']:
+            y.adapt([lab(s) for s in e] if len(e) > 1 else lab(e[0]))
+        if d['y_affine']:
+            y.adapt(z)
+    if presolve is None:
+        declare_adaptation()
     fs = m.ambiguity()
     for s in range(S):
         fs.loc[lab(s)].suppset(z >= np.array(d['lo'][s]), z <= np.array(d['hi'][s])) if (d['labels'] or d['int_labels']) else \
@@ -104,6 +110,10 @@ def build(d):
     else:
         obj = E(base + rso.maxof(*pcs)) if False else E(rso.maxof(*pcs) + base)
     m.minsup(obj, fs)
+    if presolve is not None:
+        m.st(x >= -3, y >= -50)
+        presolve(m)
+        declare_adaptation()
     m.st(y >= np.array(d['g']) @ z + np.array(d['hh']) @ x)
     m.st(y >= np.array(d['g2']) @ z + np.array(d['hh2']) @ x)
     m.st(x >= -3, x <= 3, y <= 50)
